@@ -1,6 +1,7 @@
 import UbxModel.Proofs.FieldsRoundtrip2
 import UbxModel.Proofs.LayoutBlocks
 import UbxModel.Gen.Layouts
+import UbxModel.Proofs.ValgetRoundtrip
 /-!
 # C08 — Encoding inverts decoding; read-modify-write changes only the edited field
 
@@ -81,5 +82,38 @@ example :
       = [.int 1000, .int 1, .int 1] ∧
     (match Gen.UbxCfgRate.encode [.int 100, .int 1, .int 1] with | .ok bs => bs | .error _ => [])
       = [0x64, 0x00, 0x01, 0x00, 0x01, 0x00] := by decide
+
+/-! ### variable-length messages whose fields are configuration items (VALGET responses) -/
+
+/-- **decode then encode of a VALGET response**: the key/value area is reproduced pair by pair — the key id with its
+    reserved bits cleared (they are the "reserved bytes" of this message), the value bytes exactly as received; a
+    tail of 1–3 bytes, which is no pair, is dropped (R4) -/
+theorem valget_encode_after_decode (payload : List Nat) (hb : Bytes payload) (v l p : Int) (items : List CfgItem)
+    (h : valgetDecode payload = .ok (v, l, p, items)) :
+    packItems items = .ok (valgetCanon payload.length (payload.drop 4)) := by
+  unfold valgetDecode at h
+  cases h1 : unpackU 1 payload with
+  | error e => rw [h1, bind_error] at h; cases h
+  | ok v' =>
+    rw [h1, bind_ok] at h
+    cases h2 : unpackU 1 (payload.drop 1) with
+    | error e => rw [h2, bind_error] at h; cases h
+    | ok l' =>
+      rw [h2, bind_ok] at h
+      cases h3 : unpackU 2 (payload.drop 2) with
+      | error e => rw [h3, bind_error] at h; cases h
+      | ok p' =>
+        rw [h3, bind_ok] at h
+        cases h4 : valgetItems payload.length (payload.drop 4) with
+        | error e => rw [h4, bind_error] at h; cases h
+        | ok its =>
+          rw [h4, bind_ok] at h
+          have hi : its = items := by injection h with h; injection h with _ h; injection h with _ h; injection h with _ h
+          subst hi
+          exact valget_reencode _ _ (fun b hbm => hb b (List.mem_of_mem_drop hbm)) its h4
+
+/-- non-vacuity: CFG-RATE-MEAS = 1000 (16 bit) with reserved key bits set, then a 1-bit item, then two stray bytes -/
+example : valgetCanon 20 [0x01, 0xF0, 0x21, 0xB0, 0xE8, 0x03, 0x1F, 0x00, 0x31, 0x10, 0x01, 0xAA, 0xBB]
+    = [0x01, 0x00, 0x21, 0x30, 0xE8, 0x03, 0x1F, 0x00, 0x31, 0x10, 0x01] := by decide +kernel
 
 end C08
